@@ -7,7 +7,7 @@
 From Coq Require Import List Bool ZArith Lia.
 Import ListNotations.
 From Rosed Require Import Base.Res Base.ListX Base.Utf8 Gem.Segment Gem.GString Model.Manip Model.Table Model.Options Model.Editor Model.Ops
-     Proofs.C04P Proofs.C14P Proofs.C18P Proofs.SeamP Proofs.C18Q Proofs.C18R.
+     Proofs.C04P Proofs.C14P Proofs.C18P Proofs.SeamP Proofs.C18Q Proofs.C18R Proofs.C14R.
 Open Scope Z_scope.
 
 (* Chars / Insert / Delete / Overtype on any valid UTF-8 text, any integer positions *)
@@ -76,3 +76,12 @@ Theorem C18_indent_editor : forall (C : Classifier) (K : ClassifierOk) (U : Uppe
   o_preserve (with_defaults opts) = false -> exists r, indent_opts level opts e = Ok r.
 Proof. intros C K U. exact indent_opts_total. Qed.
 Print Assumptions C18_indent_editor.
+
+(* InsertTwoColumns returns normally for every pair of texts, every non-negative gap, every
+   width, percentage and position, on any Editor holding valid UTF-8: neither the explicit
+   panic nor a negative padding count is reachable *)
+Theorem C18_two_columns : forall (C : Classifier) (K : ClassifierOk) (U : Upper) pos lt rt gap width m ex opts rs o ref,
+  scalars rs -> 0 <= gap ->
+  exists r, insert_two_columns_opts pos lt rt gap width m ex opts (Ed (encode rs) o ref) = Ok r.
+Proof. intros C K U. exact two_columns_total. Qed.
+Print Assumptions C18_two_columns.
